@@ -127,6 +127,10 @@ pub struct ExploreCfg {
     /// execution cap per bound level (0 = none)
     pub max_runs: u64,
     pub parallel: bool,
+    /// The subject has a source of nondeterminism the harness does not own (hash iteration order):
+    /// a replayed prefix that no longer fits is counted as a diverged run instead of aborting.
+    /// Exploration is then no longer a complete enumeration and is reported as such.
+    pub tolerate_divergence: bool,
 }
 
 impl Default for ExploreCfg {
@@ -137,6 +141,7 @@ impl Default for ExploreCfg {
             deadline: None,
             max_runs: 0,
             parallel: true,
+            tolerate_divergence: false,
         }
     }
 }
@@ -153,6 +158,8 @@ pub struct ExploreStats {
     pub bound_completed: Option<u32>,
     pub capped: bool,
     pub max_trace_len: u64,
+    /// runs whose replayed prefix did not fit (only with `tolerate_divergence`)
+    pub diverged: u64,
 }
 
 /// What a single run tells the explorer.
@@ -171,6 +178,7 @@ struct Shared<'a, F> {
     max_trace: AtomicU64,
     stop: AtomicBool,
     capped: AtomicBool,
+    diverged: AtomicU64,
 }
 
 fn rec<F>(sh: &Shared<'_, F>, prefix: Vec<u32>, devs: u32, level: u32)
@@ -195,16 +203,15 @@ where
     }
     let mut ch = Chooser::new(&prefix);
     let outcome = (sh.run)(&mut ch);
-    if let Some(nd) = &ch.nondeterminism {
+    if ch.nondeterminism.is_some() || ch.trace.len() < prefix.len() {
+        if sh.cfg.tolerate_divergence {
+            sh.diverged.fetch_add(1, Ordering::Relaxed);
+            return;
+        }
         crate::machinery(format!(
-            "NONDETERMINISM while replaying prefix {:?}: {}",
-            prefix, nd
-        ));
-    }
-    if ch.trace.len() < prefix.len() {
-        crate::machinery(format!(
-            "NONDETERMINISM: prefix of {} choices, execution made only {}",
+            "NONDETERMINISM while replaying a prefix of {} choices: {} (execution made {} choices)",
             prefix.len(),
+            ch.nondeterminism.clone().unwrap_or_else(|| "execution ended early".into()),
             ch.trace.len()
         ));
     }
@@ -253,9 +260,11 @@ where
             max_trace: AtomicU64::new(0),
             stop: AtomicBool::new(false),
             capped: AtomicBool::new(false),
+            diverged: AtomicU64::new(0),
         };
         rec(&sh, Vec::new(), 0, level);
         let runs = sh.runs.load(Ordering::Relaxed);
+        stats.diverged += sh.diverged.load(Ordering::Relaxed);
         stats.runs_total += runs;
         stats.runs_last_level = runs;
         stats.max_trace_len = stats.max_trace_len.max(sh.max_trace.load(Ordering::Relaxed));
@@ -282,6 +291,7 @@ where
         max_trace: AtomicU64::new(0),
         stop: AtomicBool::new(false),
         capped: AtomicBool::new(false),
+        diverged: AtomicU64::new(0),
     };
     rec(&sh, Vec::new(), 0, cfg.bound);
     let runs = sh.runs.load(Ordering::Relaxed);
@@ -293,6 +303,7 @@ where
         bound_completed: if capped { None } else { Some(cfg.bound) },
         capped,
         max_trace_len: sh.max_trace.load(Ordering::Relaxed),
+        diverged: sh.diverged.load(Ordering::Relaxed),
     }
 }
 
